@@ -5,6 +5,7 @@ package sctp
 import (
 	"fmt"
 	"math"
+	"strings"
 	"sync"
 	"testing"
 	"testing/synctest"
@@ -105,7 +106,7 @@ func runC19RTO(sc c19RTO) (c vfCase) {
 // ---- (b) rtxTimer / ackTimer state machines in a bubble ----
 
 type c19TimerOp struct {
-	K      int `json:"k"` // 0 wait, 1 start, 2 stop, 3 close
+	K      int `json:"k"` // 0 wait, 1 start, 2 stop, 3 close, 4 stop at the very instant of the next expiry (rtx timer)
 	WaitMs int `json:"w,omitempty"`
 	RTO    int `json:"rto,omitempty"`
 }
@@ -120,7 +121,7 @@ func genC19Timer(rt *rapid.T) c19Timer {
 	sc := c19Timer{MaxRetrans: rapid.SampledFrom([]int{0, 0, 1, 3, 8}).Draw(rt, "maxretrans"), RTOMax: rapid.SampledFrom([]int{1000, 1700, 4000, 60000}).Draw(rt, "rtomax")}
 	n := rapid.IntRange(1, 30).Draw(rt, "n")
 	for i := 0; i < n; i++ {
-		op := c19TimerOp{K: rapid.SampledFrom([]int{0, 0, 0, 1, 1, 2, 3}).Draw(rt, "k")}
+		op := c19TimerOp{K: rapid.SampledFrom([]int{0, 0, 0, 1, 1, 2, 3, 4, 4}).Draw(rt, "k")}
 		switch op.K {
 		case 0:
 			op.WaitMs = rapid.SampledFrom([]int{1, 10, 199, 200, 201, 999, 1000, 1001, 2000, 3000, 7000, 20000, 100000}).Draw(rt, "w")
@@ -162,6 +163,7 @@ func runC19Timer(t *testing.T, sc c19Timer) (c vfCase) {
 	var want []string
 	obs := &c19Obs{}
 	maxExp := 0
+	coincide := 0
 	pm := vfBubble(t, func() {
 		obs.start = time.Now()
 		tm := newRTXTimer(7, obs, uint(sc.MaxRetrans), float64(sc.RTOMax))
@@ -211,6 +213,28 @@ func runC19Timer(t *testing.T, sc c19Timer) (c vfCase) {
 				if state == 1 {
 					state = 0
 				}
+			case 4:
+				// stop() in the very instant in which the timer expires: the expiry callback may
+				// or may not get in first (both are allowed), but the timer must be stopped
+				// afterwards and work normally when started again
+				if state != 1 {
+					tm.stop()
+					continue
+				}
+				if d := next - now; d > 0 {
+					time.Sleep(d)
+				}
+				tm.stop()
+				coincide++
+				n++
+				if sc.MaxRetrans == 0 || n <= sc.MaxRetrans {
+					want = append(want, fmt.Sprintf("?%d timeout n=%d", next.Microseconds(), n))
+				} else {
+					want = append(want, fmt.Sprintf("?%d failure", next.Microseconds()))
+				}
+				now = next
+				state = 0
+				synctest.Wait()
 			case 3:
 				tm.close()
 				state = 2
@@ -227,8 +251,30 @@ func runC19Timer(t *testing.T, sc c19Timer) (c vfCase) {
 	obs.mu.Lock()
 	got := obs.evs
 	obs.mu.Unlock()
-	if fmt.Sprint(got) != fmt.Sprint(want) {
-		c.fail("rtx-timer-schedule", "rtxTimer callbacks differ from the reference schedule (maxRetrans=%d rtoMax=%d)\n  got:  %v\n  want: %v", sc.MaxRetrans, sc.RTOMax, got, want)
+	// entries of want that start with '?' may be absent
+	gi := 0
+	okSched := true
+	for _, w := range want {
+		if strings.HasPrefix(w, "?") {
+			if gi < len(got) && got[gi] == w[1:] {
+				gi++
+			}
+			continue
+		}
+		if gi >= len(got) || got[gi] != w {
+			okSched = false
+			break
+		}
+		gi++
+	}
+	if gi != len(got) {
+		okSched = false
+	}
+	if !okSched {
+		c.fail("rtx-timer-schedule", "rtxTimer callbacks differ from the reference schedule (maxRetrans=%d rtoMax=%d; '?' = may be absent: stop() coincided with the expiry)\n  got:  %v\n  want: %v", sc.MaxRetrans, sc.RTOMax, got, want)
+	}
+	if coincide > 0 {
+		c.class("stop-coincides-with-expiry")
 	}
 	c.Nontrivial = maxExp >= 3
 	if maxExp >= 3 {
@@ -267,7 +313,7 @@ func runC19AckTimer(t *testing.T, sc c19Timer) (c vfCase) {
 				if state == 0 {
 					state, next = 1, now+200*time.Millisecond
 				}
-			case 2:
+			case 2, 4:
 				tm.stop()
 				if state == 1 {
 					state = 0
